@@ -427,4 +427,42 @@ theorem code_aggregatedMembership (agg : Option (X Rat → X Rat → X Rat)) (te
       simp only [Option.isSome_some, Bool.not_true, Bool.and_false, Bool.false_eq_true, if_false,
         aggregated_loop_error g terms xr terms _ hex, bind, Except.bind]
 
+/-! ## the shape hypothesis of the defuzzifier ties holds for the model's matrix -/
+
+theorem zipWith_rows {g : X Rat → X Rat → X Rat} {n : Nat} :
+    ∀ (Y M : Mat), (∀ q ∈ Y, q.length = n) → (∀ q ∈ M, q.length = n) →
+      ∀ q ∈ List.zipWith (List.zipWith g) Y M, q.length = n
+  | [], _, _, _ => by simp
+  | _ :: _, [], _, _ => by simp
+  | y :: Y, m :: M, hY, hM => by
+    intro q hq
+    simp only [List.zipWith_cons_cons, List.mem_cons] at hq
+    rcases hq with rfl | hq
+    · simp [hY y (by simp), hM m (by simp)]
+    · exact zipWith_rows Y M (fun q hq => hY q (by simp [hq])) (fun q hq => hM q (by simp [hq])) q hq
+
+theorem aggregatedMat_shape (g : X Rat → X Rat → X Rat) (acts : List (Activated Rat)) (B : Nat) (xr : Row) :
+    memShape xr.length (aggregatedMat g acts B xr) = true := by
+  unfold aggregatedMat
+  split
+  · simp [memShape]
+  · have key : ∀ (l : List (Activated Rat)) (Y : Mat), (∀ q ∈ Y, q.length = xr.length) →
+        ∀ q ∈ l.foldl (fun Y a => List.zipWith (List.zipWith g) Y (activatedMat a B xr)) Y, q.length = xr.length := by
+      intro l
+      induction l with
+      | nil => intro Y hY; exact hY
+      | cons a l ih =>
+        intro Y hY
+        exact ih _ (zipWith_rows Y _ hY (activatedMat_rows a B xr))
+    have := key acts (List.replicate B (xr.map (fun _ => X.fin 0))) (by
+      intro q hq
+      rw [List.eq_of_mem_replicate hq]
+      simp)
+    unfold memShape
+    rw [Bool.or_eq_true]
+    left
+    rw [List.all_eq_true]
+    intro q hq
+    simpa using this q hq
+
 end Op.Integral
